@@ -303,6 +303,100 @@ func c14TopicFrom(r *vfRand, f string) string {
 	return strings.Join(out, "/")
 }
 
+// c14GenWide: one trie node (the root or a node one/two levels down) gets 30-80 distinct
+// literal children l0..l79 besides its "+" and "#" children; topics hit literals that
+// exist, literals that do not, the parent level and deeper levels below the wide node,
+// while the node grows past and shrinks below any width threshold.
+func c14GenWide(r *vfRand, adv bool) c14In {
+	in := c14In{Lru: r.Range(1, 3)}
+	prefix := r.PickStr("", "", "a/", "a/b/", "/", "+/")
+	tprefix := strings.ReplaceAll(prefix, "+", r.PickStr("a", "b", ""))
+	w := r.PickInt(30, 32, 33, 34, 40, 48, 64, 80, r.Range(33, 80), r.Range(33, 80))
+	nc := r.Range(1, 3)
+	cids := []string{"c1", "c2", "c3"}[:nc]
+	lit := func(i int) string { return fmt.Sprintf("l%d", i) }
+	find := func(t string) { in.Ops = append(in.Ops, c14Op{K: "find", T: t}) }
+	probe := func(have int) {
+		// an existing literal, a missing literal, below them, the parent level
+		i := r.Intn(w)
+		if have > 0 && r.Chance(3, 4) {
+			i = r.Intn(have)
+		}
+		switch r.Intn(7) {
+		case 0, 1:
+			find(tprefix + lit(i))
+		case 2:
+			find(tprefix + lit(i) + "/" + c14Lit(r))
+		case 3:
+			find(tprefix + lit(w+r.Intn(20)))
+		case 4:
+			find(tprefix + lit(w+r.Intn(20)) + "/" + c14Lit(r))
+		case 5:
+			find(tprefix + c14Lit(r))
+		default:
+			find(strings.TrimSuffix(tprefix, "/"))
+		}
+	}
+	wildSubs := func() {
+		op := c14Op{K: "sub", C: cids[r.Intn(nc)]}
+		for _, f := range []string{prefix + "+", prefix + "#", prefix + "+/" + c14Lit(r), prefix + "+/#", prefix + "+/+"} {
+			if r.Chance(2, 3) {
+				op.F = append(op.F, f)
+				op.Q = append(op.Q, r.Intn(3))
+			}
+		}
+		if len(op.F) == 0 {
+			op.F, op.Q = []string{prefix + "+"}, []int{r.Intn(3)}
+		}
+		in.Ops = append(in.Ops, op)
+	}
+	early := r.Bool()
+	if early {
+		wildSubs()
+	}
+	// build the wide node in packets of 4-12 filters
+	for i := 0; i < w; {
+		k := r.Range(4, 12)
+		op := c14Op{K: "sub", C: cids[r.Intn(nc)]}
+		for j := 0; j < k && i < w; j++ {
+			f := prefix + lit(i)
+			switch r.Intn(6) {
+			case 0:
+				f += "/" + c14Lit(r)
+			case 1:
+				f += "/+"
+			}
+			op.F = append(op.F, f)
+			op.Q = append(op.Q, r.Intn(3))
+			i++
+		}
+		in.Ops = append(in.Ops, op)
+		if i >= 28 || r.Chance(1, 4) {
+			probe(i)
+		}
+	}
+	if !early {
+		wildSubs()
+	}
+	for j := r.Range(6, 14); j > 0; j-- {
+		probe(w)
+	}
+	// shrink: a client leaves or unsubscribes a run of literals, then probe again
+	if r.Bool() {
+		in.Ops = append(in.Ops, c14Op{K: "disc", C: cids[r.Intn(nc)]})
+	} else {
+		op := c14Op{K: "unsub", C: cids[r.Intn(nc)]}
+		for i := r.Intn(10); i < w && len(op.F) < 20; i++ {
+			op.F = append(op.F, prefix+lit(i))
+		}
+		in.Ops = append(in.Ops, op)
+	}
+	for j := r.Range(4, 8); j > 0; j-- {
+		probe(w)
+	}
+	return in
+}
+
 func c14GenHist(r *vfRand, adv bool, wild bool) c14In {
 	in := c14In{Lru: r.Range(1, 3)}
 	nc := r.Range(1, 4)
@@ -448,6 +542,9 @@ func TestVerifC14(t *testing.T) {
 	for i := 0; i < n; i++ {
 		r := root.Fork(i)
 		switch {
+		case i%12 == 0:
+			in := c14GenWide(r, adv)
+			out.Emit(vfCase{ID: fmt.Sprintf("%s-wide-%d", src, i), Src: src, Grp: "hist", In: in, Obs: c14Run(in)})
 		case i%10 == 9:
 			in := c14GenSplit(r)
 			out.Emit(vfCase{ID: fmt.Sprintf("%s-split-%d", src, i), Src: src, Grp: "split", In: in, Obs: c14RunSplit(in)})
